@@ -10,7 +10,7 @@ ACC = re.compile(r'<<"ACCEPT", ("?)([^">]+)\1>>')
 AT = re.compile(r'<<"AT", ("?)([^">,]+)\1, (\d+)>>')
 
 
-def validate(module, cfg, traces, name, workers=16, timeout=3600, overrides=None):
+def validate(module, cfg, traces, name, workers=16, timeout=3600, overrides=None, extra_marks=None):
     """traces: list of dicts each with a unique 'id' (int or str).  Returns (accepted ids, first failing step per
     rejected id, tlc result)."""
     ids = [str(t["id"]) for t in traces]
@@ -28,6 +28,11 @@ def validate(module, cfg, traces, name, workers=16, timeout=3600, overrides=None
             for m in ACC.finditer(line):
                 accepted.add(m.group(2))
             return True
+        for mark, dest in (extra_marks or {}).items():
+            if line.startswith('<<"%s"' % mark):
+                for m in re.finditer(r'<<"%s", ("?)([^">]+)\1>>' % mark, line):
+                    dest.add(m.group(2))
+                return True
         return False
 
     res = tlc.run(module, cfg, name=name, workers=workers, on_line=on_line, env={"TRACE_FILE": path},
